@@ -409,16 +409,7 @@ func r8value(r *Rng, nl string, eightBit bool) string {
 func r8fieldsGen(r *Rng, nl string, n int, eightBit bool) []byte {
 	var b []byte
 	for i := 0; i < n; i++ {
-		name := Pick(r, r8fieldNames)
-		if r.Chance(1, 10) {
-			name = "X-" + r8word(r, false)
-			name = strings.Map(func(c rune) rune {
-				if c == ':' || c == ' ' {
-					return '-'
-				}
-				return c
-			}, name)
-		}
+		name := r8c13FieldName(r, r8c13Stats) // any RFC 5322 field name, see d_rfc822_names.go
 		b = append(b, name...)
 		b = append(b, ':')
 		b = append(b, r8value(r, nl, eightBit)...)
@@ -504,6 +495,15 @@ func r8build(r *Rng, depth int, nl string, eightBit bool, top bool) *r8node {
 	case 2:
 		ctLine = "Content-Type: " + Pick(r, []string{"message/rfc822", "message/rfc822", "Message/RFC822", "message/rfc822; name=fwd.eml"}) + nl
 		n.embedded = r8build(r, depth-1, nl, eightBit, true)
+	}
+	if ctLine != "" && r.Chance(1, 4) {
+		// the field name Content-Type and the parameter name boundary in another letter case
+		if k := strings.IndexByte(ctLine, ':'); k > 0 {
+			ctLine = r8c13CaseVariant(r, ctLine[:k]) + ctLine[k:]
+		}
+		if k := strings.Index(ctLine, "boundary="); k > 0 && r.Bool() {
+			ctLine = ctLine[:k] + r8c13CaseVariant(r, "boundary") + ctLine[k+len("boundary"):]
+		}
 	}
 	n.hdr = append(append(append([]byte{}, pre...), ctLine...), post...)
 	// header / body separator: normally the blank line; sometimes missing (no body at all)
@@ -602,6 +602,7 @@ func r8garbage(r *Rng) []byte {
 
 func r8genMsg(r *Rng, st *Stats, big bool) r8msg {
 	m := r8msg{expect: map[string][]byte{}}
+	r8c13Cur, r8c13Stats = nil, st
 	switch c := r.Intn(10); {
 	case c == 0:
 		m.lit = r8garbage(r)
@@ -680,27 +681,9 @@ func r8expectWord(m r8msg, p []int) string {
 	return "?"
 }
 
-func r8genNames(r *Rng) [][]byte {
-	n := Pick(r, []int{0, 1, 1, 2, 2, 3})
-	var out [][]byte
-	for i := 0; i < n; i++ {
-		name := Pick(r, r8fieldNames)
-		switch r.Intn(6) {
-		case 0:
-			name = strings.ToUpper(name)
-		case 1:
-			name = strings.ToLower(name)
-		case 2:
-			name = "X-" + strings.Map(func(c rune) rune {
-				if c == ':' || c == ' ' || c == ',' || c > 126 {
-					return '-'
-				}
-				return c
-			}, r8word(r, false))
-		}
-		out = append(out, []byte(name))
-	}
-	return out
+// r8genNames: the field list of a request against the header / message b (see d_rfc822_names.go).
+func r8genNames(r *Rng, b []byte, headerOnly bool, st *Stats) [][]byte {
+	return r8c13Requested(r, r8c13PresentNames(b, headerOnly), st)
 }
 
 // r8boundaryVal draws offsets/counts from the boundary values of a literal of length n. With raw=false the
@@ -752,9 +735,14 @@ func r8headerOf(r *Rng, m r8msg) []byte {
 
 func r8genHdr(r *Rng, n int, w io.Writer, st *Stats) {
 	for i := 0; i < n; i++ {
+		if r.Chance(1, 6) {
+			h, names := r8c13ClusterHeader(r, Pick(r, []string{"\r\n", "\r\n", "\n"}), st)
+			fmt.Fprintf(w, "rfc822-hdr %s %s\n", r8hex(h), r8hexList(names))
+			continue
+		}
 		m := r8genMsg(r, st, false)
 		h := r8headerOf(r, m)
-		fmt.Fprintf(w, "rfc822-hdr %s %s\n", r8hex(h), r8hexList(r8genNames(r)))
+		fmt.Fprintf(w, "rfc822-hdr %s %s\n", r8hex(h), r8hexList(r8genNames(r, h, false, st)))
 	}
 }
 
@@ -801,6 +789,19 @@ func r8genFetchSectStream(name string, raw bool) func(r *Rng, n int, w io.Writer
 			kind := Pick(r, r8kinds)
 			p := r8genPath(r, m)
 			names := "-"
+			if strings.HasPrefix(kind, "FIELDS") && r.Chance(1, 5) {
+				// a message whose field names are relatives of one name, asked for at the top level
+				h, req := r8c13ClusterHeader(r, "\r\n", st)
+				m = r8msg{lit: append(h, r8bodyGen(r, "\r\n", false)...)}
+				p = nil
+				b, c := r8genPartial(r, len(m.lit), raw)
+				st.Inc("fetch.kind=" + kind)
+				fmt.Fprintf(w, "%s %s - %s %s %s %s %s\n", name, r8hex(m.lit), kind, r8hexList(req), b, c, r8ctTable(m.lit))
+				continue
+			}
+			if strings.HasPrefix(kind, "FIELDS") && r.Chance(1, 2) {
+				p = nil // the top-level header: the one the judge has the reference selection for
+			}
 			b, c := "~", "~"
 			switch {
 			case strings.HasPrefix(kind, "RFC822"):
@@ -809,7 +810,7 @@ func r8genFetchSectStream(name string, raw bool) func(r *Rng, n int, w io.Writer
 				kind = "HEADER" // BODY[MIME] does not parse without a part
 			}
 			if strings.HasPrefix(kind, "FIELDS") {
-				names = r8hexList(r8genNames(r))
+				names = r8hexList(r8genNames(r, m.lit, len(p) == 0 && r.Chance(3, 4), st))
 			}
 			if !strings.HasPrefix(kind, "RFC822") {
 				b, c = r8genPartial(r, len(m.lit), raw)
